@@ -68,6 +68,27 @@ THEOREMS = {
     "C08_cache_refuted": "REFUTED without NoSelfCombo: a row with the same treatment in both columns leaves Mu stale after _V0_step (witness: Mu = 1, recomputation = 2)",
     "C08_export": "get_model_state predicts reconstruct(state) (= Mu when the cache is exact) on the training rows and carries prec",
     "C08_mvn_mean_cov": "L lower triangular, non-zero diagonal, L L' = Q: Q m = b and L'(x - m) = z for the substitution results",
+    "C08_model_is_source_observable": "prog_eq (equality of programs up to the extensionality of their continuations) implies: for every stream of drawn values the two programs issue the same list of draw arguments and end in the same state",
+    "C08_model_is_source_mcmc_step_order": "translation of the WHOLE LegacySparseDrugComboImpl.mcmc_step, for ANY behaviour of the block methods: each of the 13 methods is called once, in the model's step_order, threading the state (complements the round-1 MCMC_STEP_ORDER constant of C08_order)",
+    "C08_model_is_source_mcmc_step": "... hence with block methods that behave as the model's step functions the translated mcmc_step is the model's sweep",
+    "C08_model_is_source_n_obs": "translation of n_obs = number of observations",
+    "C08_model_is_source_get": "translation of the WHOLE get(attr, ix) (fancy-index copy, np.where(ix == -1)[0], zeroing of those entries) on a vector / a matrix = the model's get_v / get_r at every index",
+    "C08_model_is_source_alpha_step": "translation of the WHOLE _alpha_step with fake_intercept = True (the early return without data, alpha = mean(y), Mu += alpha - old) = the model's alpha_step",
+    "C08_model_is_source_prec_obs_step": "translation of the WHOLE _prec_obs_step (the no-data draw Gamma(a0, scale 1/b0) and return; sse, shape a0 + n/2, scale 1/(b0 + sse/2 + 1e-3), clip to [1/sqrt(1+n), 1e6]) = the model's program, when Mu has one entry per observation",
+    "C08_model_is_source_prec_W0_step": "translation of the WHOLE _prec_W0_step = the model's program (all states)",
+    "C08_model_is_source_W0_step": "translation of the WHOLE _W0_step (loop over range(n_clines), cline_idxs[c], prior-only branch N(0, var 1/tau0), residual y[cidx] - Mu[cidx] + W0[c], mean prec*sum/(prec*N + tau0), variance 1/(prec*N + tau0), store, Mu[cidx] += new - old) = the model's sequence of W0 blocks, when W0 has n_clines entries",
+    "C08_model_is_source_prec_V0_step": "translation of the WHOLE _prec_V0_step with local_shrinkage = True (gamma draws of phiaux0, phi0, etaaux0, eta0 with their scales, the counts N1 + N2 from dd1_idxs / dd2_idxs, clip of phi0 to [1/sqrt(1+N1+N2), 1e6] and of eta0 to [1/sqrt(1+n), 1e6]) = the model's program, when phi0 and V0 have n_drugdoses entries",
+    "C08_model_is_source_prec_V2_step": "same for _prec_V2_step (matrix / vector draws, eta2 broadcast over the rows, column sums, C[:, None]) when V2, phi2 are n_drugdoses x D and eta2 has D entries",
+    "C08_model_is_source_prec_V1_step": "same for _prec_V1_step",
+    "C08_model_is_source_prec_W_step": "translation of the WHOLE _prec_W_step with mult_gamma_proc = True (W**2 once, component 0 with shape 2 + n_clines*D/2, the loop over d in range(1, D) with the slices cumprod(gam)[d:] / gam[d] and parssq[:, d:], shape 3 + n_clines*(D-d)/2, rate 1 + sum/2 + 1e-3, gam[d] stored before the next component reads it, tau = cumprod(gam), clip) = the model's program, when W is n_clines x D, gam has D entries, D > 0",
+    "C08_model_is_source_update": "translation of the WHOLE _update on the object's observation store (four lists, three defaultdict(list) index dicts): if the store represents the model's data (lists equal, every dict lists for every key the observation numbers with that key in insertion order - what the block links' index primitive reads) then after _update(y, cl, dd1, dd2) it represents the data extended by that row",
+    "C08_model_is_source_update_empty": "the empty store (as __init__ leaves it) represents the empty data",
+    "C08_model_is_source_encode_obs": "translation of encode_obs on a store that represents d returns (d_y, d_cl, d_dd1, d_dd2) - the block links' encode_obs primitive",
+    "C08_model_is_source_reconstruct_Mu": "translation of the WHOLE _reconstruct_Mu(clip) (early return without data, W[cline] * get(V2,dd1) * get(V2,dd2) and W[cline] * (get(V1,dd1) + get(V1,dd2)) summed over the last axis, alpha + W0[cline] + get(V0,dd1) + get(V0,dd2), the optional clip) = the model's reconstruct_Mu, when the four observation arrays have equal length and W, V2, V1 have D columns",
+    "C08_model_is_source_W_step": "translation of the WHOLE _W_step (loop over range(n_clines), prior-only branch N(0, diag 1/tau), design rows get(V2,dd1)*get(V2,dd2) + get(V1,dd1) + get(V1,dd2), old contribution X @ W[c], residual, mu_part = Xt @ resid * prec, Q = Xt @ X * prec with tau added on the diagonal, try/except around sample_mvn_from_precision (a raising call leaves the state unchanged), store, Mu[cidx] += X @ W[c] - old) = the model's sequence of W blocks, when W has n_clines rows and V2, V1 are n_drugdoses x D",
+    "C08_model_is_source_V2_step": "translation of the WHOLE _V2_step (both slices, design rows W[cline] * get(V2, other treatment), empty-slice branches, concatenations, prior phi2[m] * eta2, Q[dix] += phi2[m] * eta2, try/except, store, Mu[idx] += ...) = the model's sequence of V2 blocks, when V2 has n_drugdoses rows, W is n_clines x D, phi2 is n_drugdoses x D, eta2 has D entries",
+    "C08_model_is_source_V1_step": "same for _V1_step (design rows W[cline])",
+    "C08_model_is_source_V0_step": "translation of the WHOLE _V0_step (loop over range(n_drugdoses), dd1_idxs[m] / dd2_idxs[m], prior-only branch with phi0[m]*eta0, the two residual slices, concatenation, mean, variance, store, Mu[idx] += new - old with the concatenated - possibly repeating - index) = the model's sequence of V0 blocks, when V0 has n_drugdoses entries",
 }
 ASSUMPTIONS = [
     "np.random.normal / np.random.gamma / Generator.normal sample the distributions their arguments name (the theorems are about the arguments)",
@@ -75,6 +96,7 @@ ASSUMPTIONS = [
     "sqrt is an oracle (libm on the nearest double) in the clipping bound 1/sqrt(1+n)",
     "a[idx] += d with a repeated index keeps the last write (checked on every run)",
     "default model options only (fake_intercept, mult_gamma_proc, local_shrinkage)",
+    "source links: harness/py2gal.py's rendering of the Python fragment, and the primitives of the C08_* configurations (listed in the explanation); numpy's IndexError / shape errors are not represented (reads outside an array give 0, the links carry the shape facts they need as hypotheses)",
 ]
 EXPLANATION = ("Model: Model/Gibbs.v (sampler as a program of draws), Model/Mvn.v; independent specification Model/GibbsSpec.v "
                "(energy = -2 log joint of the documented model for an arbitrary function ln). Nothing of DESIGN 5/C08 was dropped: all five "
@@ -92,7 +114,35 @@ EXPLANATION = ("Model: Model/Gibbs.v (sampler as a program of draws), Model/Mvn.
                "energy differences. Findings on the unchanged tree: (1) a row with the same non-control treatment in both columns: the "
                "V0/V2/V1 draws are not the full conditional and Mu is stale for the rest of the sweep (signature "
                "self-combination-row-stale-cache; C08_cache_refuted); (2) recorded, not failed: with no observation at all _prec_obs_step "
-               "draws Gamma(a0, b0) without the 1e-3 jitter and without clipping (C08_prec_unclipped_without_data_refuted).")
+               "draws Gamma(a0, b0) without the 1e-3 jitter and without clipping (C08_prec_unclipped_without_data_refuted). "
+               "Source-translation links (C08_model_is_source_*): the methods mcmc_step, n_obs, _update, encode_obs, get, _reconstruct_Mu, _alpha_step, _prec_obs_step, "
+               "_prec_W0_step, _W0_step, _V0_step, _W_step, _V2_step, _V1_step, _prec_V0_step, _prec_V2_step, _prec_V1_step, _prec_W_step of LegacySparseDrugComboImpl are re-translated from the source on every run "
+               "(harness/py2gal.py, configurations C08_* of harness/src_functions.py -> Generated/SrcGibbs.v) as programs in the free monad "
+               "over the model's draws (a draw call is a node carrying its arguments, the method continues with the drawn value) and proved "
+               "equal to the model's programs for all inputs (equality up to the extensionality of continuations, prog_eq; "
+               "C08_model_is_source_observable: same draw arguments and final state for every answer stream). What these links TRUST: "
+               "the translator (with its C08 extensions: augmented-store effects, `x.attr op= e`, bare return, try/except around one "
+               "declared primitive) and these one-call primitives: `self` split into options/sizes g (n_clines, n_drugdoses, D, a0, b0, "
+               "min_Mu, max_Mu; fake_intercept / local_shrinkage / mult_gamma_proc as parameters, theorems at the defaults), observations d "
+               "(y, encode_obs() = the four arrays, cline_idxs[k] / dd1_idxs[k] / dd2_idxs[k] = the observation numbers with that key in "
+               "insertion order, np.array(list) = the list) and the state record (cfg fields W..Mu: read, store); float literals 0.0 1.0 0.5 "
+               "1e-3 1e6 as exact rationals; + - * / on floats as rational arithmetic, int -> float promotion; np.sqrt(x) and "
+               "1.0/np.sqrt(x) kept symbolic (a normal draw with standard deviation 1/sqrt(p) has variance 1/p; np.clip(x, 1/sqrt(k), hi) "
+               "takes the oracle's value as the model does); np.random.normal(m, s) -> DNormal m s^2, np.random.normal(0.0, s) with an array "
+               "s -> DNormalVec, np.random.gamma(a, scale) -> DGamma / DGammaVec / DGammaMat a (1/scale) (an array answer read at the shape "
+               "of the scale), sample_mvn_from_precision(Q, mu_part=b) -> DMvn Q b whose answer VV w / VFail says whether it raised, each "
+               "continuing with the drawn value; elementwise - + * on arrays of equal shape, array op scalar, scalar op array, a row vector "
+               "times a matrix (broadcast over rows), np.square / **2, .sum() / .mean() / np.mean / .sum(0) / np.sum(a, -1), len, range, "
+               "a[i] (Python index), a[idx] (gather by observation numbers / Python ints), a[d:], a[:, d:], np.concatenate([a, b]), "
+               "np.cumprod, X @ v, Xt @ X, X.transpose() (matrices with self.D columns), np.diag_indices(n) and Q[dix] += v, a[i] = v, "
+               "Mu[idx] += x (gather, add, assign in order: a repeated index keeps the last write), np.clip on vectors / rows "
+               "(C[:, None]), a.copy(), ix == -1, np.where(mask)[0], A[positions] = 0.0, the empty (0, D) matrix, warnings.warn ignored. "
+               "numpy's IndexError / shape errors are not represented: the links carry shape facts of reachable states as hypotheses. "
+               "Loops, branches, early returns, the order of reads / draws / stores and all arithmetic structure come from the "
+               "translation. _update / encode_obs are linked on the object's observation store (C08_model_is_source_update: the index-dict "
+               "primitive above is an invariant _update maintains; defaultdict(list) = association list, a missing key reads []). Not linked: "
+               "reset_model, __init__, the non-default option branches (translated, not modelled), and a closed composite of the sweep (the block links carry "
+               "shape hypotheses that arbitrary-length drawn values do not preserve).")
 
 STEP_NAMES = ["_reconstruct_Mu", "_alpha_step", "_W0_step", "_V0_step", "_W_step", "_V2_step", "_V1_step",
               "_prec_W0_step", "_prec_V0_step", "_prec_obs_step", "_prec_V2_step", "_prec_V1_step", "_prec_W_step"]
